@@ -8,3 +8,17 @@ macro "c15arith" : tactic =>
                  Bool.not_eq_false, Classical.not_not, ne_eq, not_or, eq_self, reduceIte, ite_true, ite_false,
                  decide_eq_true_eq] at *);
              (try simp only [← Bool.toNat_eq_one, ← Bool.toNat_eq_zero] at *); omega))
+
+/-- normalise every hypothesis once (Bool facts to `toNat` arithmetic) -/
+macro "c15hyps" : tactic =>
+  `(tactic| ((try simp only [Bool.or_eq_true, Bool.and_eq_true, Bool.not_eq_true', Bool.not_eq_false', Bool.not_eq_true,
+                 Bool.not_eq_false, Classical.not_not, ne_eq, not_or, eq_self, reduceIte, ite_true, ite_false,
+                 decide_eq_true_eq] at *);
+             (try simp only [← Bool.toNat_eq_one, ← Bool.toNat_eq_zero] at *)))
+
+/-- after `c15hyps`: normalise the goal only, then `omega` -/
+macro "c15goal" : tactic =>
+  `(tactic| ((try simp only [Bool.or_eq_true, Bool.and_eq_true, Bool.not_eq_true', Bool.not_eq_false', Bool.not_eq_true,
+                 Bool.not_eq_false, Classical.not_not, ne_eq, not_or, eq_self, reduceIte, ite_true, ite_false,
+                 decide_eq_true_eq]);
+             (try simp only [← Bool.toNat_eq_one, ← Bool.toNat_eq_zero]); omega))
